@@ -1,7 +1,7 @@
 #!/bin/bash
 # seedsweep.sh : apply every stored seed to /repo in turn, run the checks named in its meta.json, report which caught it; /repo is restored after each
 cd "$(dirname "$0")/.."
-for d in seeded/S*; do
+for d in seeded/S*/; do d=${d%/}
   id=$(basename $d)
   props=$(python3 -c "import json,sys; m=json.load(open('$d/meta.json')); c=m['checks_run'][0].split('patch.diff')[-1].split(); print(' '.join(c))")
   if ! git -C /repo apply --check $PWD/$d/patch.diff 2>/dev/null; then echo "$id: patch does not apply"; continue; fi
